@@ -75,6 +75,18 @@ pub fn exec(op: &str, a: &Value) -> Option<Value> {
             json!({"t": rel_of(*ns), "w": int(w), "day": int(dday), "sod": int((t.hour() as i64 * 60 + t.minute() as i64) * 60 + t.second() as i64), "off": int(*off as i64 / 1_000_000_000),
                    "ti": rel_of(*ti), "cmp": [int(cmp[0]), int(cmp[1]), int(cmp[2])]})
         }),
+        // the same kind of string given as a relativeTo option
+        "Zoned.relTo" => run(|| {
+            let f = fields_of(js::i(a, "w"), SUB_NS);
+            let year = if (0..=9999).contains(&f.0) { format!("{:04}", f.0) } else { format!("{}{:06}", if f.0 < 0 { '-' } else { '+' }, f.0.abs()) };
+            let off = match js::s(a, "offk") { "none" => String::new(), "z" => "Z".to_string(), _ => offset_string(js::i(a, "off")) };
+            let tz = time_zone_for(&z, false).identifier()?;
+            let s = format!("{}-{:02}-{:02}T{:02}:{:02}:{:02}.{:03}{:03}{:03}{}[{}]", year, f.1, f.2, f.3, f.4, f.5, f.6, f.7, f.8, off, tz);
+            match temporal_rs::options::RelativeTo::try_from_str_with_provider(&s, &p)? {
+                temporal_rs::options::RelativeTo::ZonedDateTime(x) => Ok(x),
+                _ => Err(TemporalError::general("HARNESS: a string with a zone annotation gave a plain relativeTo")),
+            }
+        }, |x| rel_of(x.epoch_nanoseconds().as_i128())),
         "Zoned.fromStr" => run(|| {
             let f = fields_of(js::i(a, "w"), SUB_NS);
             let year = if (0..=9999).contains(&f.0) { format!("{:04}", f.0) } else { format!("{}{:06}", if f.0 < 0 { '-' } else { '+' }, f.0.abs()) };
